@@ -63,7 +63,7 @@ class Gen:
         if c in ("mset", "maddassign", "mincdec", "mcall"):
             q = r.random()
             base = self.objlit(d - 1, fs) if q < 0.25 else N("this") if (q < 0.5 and fs.get("thisok")) else N("ref", x=self.anyname(fs))
-            key = r.choice(["a", "b"])
+            key = r.choice(["a", "b", "a", "b", "x", "y"]) if base["t"] != "this" else r.choice(["a", "b"])
             if c == "mincdec":
                 return N("mincdec", x=key, n=r.choice([1, -1]), op=r.choice(["pre", "post"]), k=[base])
             if c == "mcall":
@@ -71,7 +71,7 @@ class Gen:
             return N(c, x=key, k=[base, self.expr(d - 1, fs)])
         if c == "mget":
             base = self.objlit(d - 1, fs) if r.random() < 0.4 else N("ref", x=self.anyname(fs))
-            return N("mget", x=r.choice(["a", "b"]), k=[base])
+            return N("mget", x=r.choice(["a", "b", "a", "b", "x", "y"]), k=[base])
         if c == "passign":
             tg = [t for t in [self.anyname(fs), self.anyname(fs)] if t not in fs["loopvars"]]
             if not tg:
@@ -126,13 +126,15 @@ class Gen:
         props = []
         keys = r.sample(["a", "b"], r.randint(1, 2))
         if r.random() < 0.3:
-            keys.append(r.choice(keys))        # a second definition of one key: getter + setter pairs, replaced data properties
+            keys.append(r.choice(keys))
+        if r.random() < 0.35:
+            keys.append(r.choice(["x", "y"]))      # a key that coincides with a variable name (matters under `with`)        # a second definition of one key: getter + setter pairs, replaced data properties
         for key in keys:
             q = r.random()
             if q < 0.5:
                 params = ["p"] if q < 0.2 else []
                 ifs = dict(declared=set(params), params=params, loopvars=set(), incatch=False, top=True, outer=fs["declared"] | fs.get("outer", set()),
-                           argsok=True, thisok=True, revar=set(params), inited=list(fs.get("inited") or []) + params, fnames=list(fs.get("fnames") or []))
+                           argsok=True, thisok=True, strict=bool(fs.get("strict")), revar=set(params), inited=list(fs.get("inited") or []) + params, fnames=list(fs.get("fnames") or []))
                 if r.random() < 0.7:
                     body = [N("return", k=[N("log", k=[self.expr(max(d, 0), dict(fs, thisok=True, argsok=True))])])]
                 else:
@@ -164,6 +166,7 @@ class Gen:
                      argsok=(kind != "arrow") or fs.get("argsok", False), revar=set(params),
                      inited=list(fs.get("inited") or []) + list(params), fnames=list(fs.get("fnames") or []))
         inner["thisok"] = True if kind != "arrow" else bool(fs.get("thisok"))
+        inner["strict"] = bool(fs.get("strict"))      # (parameter expressions are generated before the function's own directive is chosen)
         if kind == "named":
             # the function's own name: an immutable binding in the scope around the parameters, assignments to it are
             # ignored in sloppy code and a TypeError in strict code (wherever the assigning code is nested)
@@ -191,13 +194,14 @@ class Gen:
             for i in range(len(params)):
                 if r.random() < 0.7:
                     defaults[i] = self.dexpr(max(d, 1), dfs, params)
+        strict = 1 if (r.random() < (0.35 if fs.get("ownnames") else 0.15) and all(x["t"] == "none" for x in defaults + pp)) else 0
+        inner["strict"] = bool(strict) or bool(fs.get("strict"))
         body = self.stmts(d, inner, top=True)
         if kind == "named" and r.random() < 0.3:
             # strict code nested in the (possibly sloppy) function assigns to the function's own name, in statement position
             asg = r.choice([N("assign", x=name, k=[N("num", n=r.randint(0, 3))]), N("addassign", x=name, k=[N("num", n=1)]), N("postinc", x=name)])
             iife = N("fn", x="", kind="func", p=[], d=[], pp=[], s=1, k=[N("expr", k=[asg]), N("expr", k=[N("log", k=[N("num", n=3)])])])
             body.insert(r.randint(0, len(body)), N("expr", k=[N("call", k=[iife])]))
-        strict = 1 if (r.random() < (0.35 if fs.get("ownnames") else 0.15) and all(x["t"] == "none" for x in defaults + pp)) else 0
         return N("fdecl" if decl_name else "fn", x=name, kind=kind, p=params, d=defaults, pp=pp, s=strict, k=body)
 
     def dexpr(self, d, fs, params):
@@ -248,6 +252,13 @@ class Gen:
             ch += ["break"]
         if fs.get("inloop"):
             ch += ["continue"]
+        if d > 0 and not fs.get("strict") and r.random() < 0.1:
+            # with (object) { ... }: the object's x / y shadow the variables of those names inside the block
+            wobj = self.objlit(d - 1, fs) if r.random() < 0.7 else N("ref", x=self.anyname(fs))
+            if wobj["t"] == "objlit" and not any(pr["x"] in ("x", "y") for pr in wobj["k"]):
+                wobj["k"].append(N("prop", x=r.choice(["x", "y"]), kind="data", k=[self.expr(max(d - 1, 0), fs)]))
+            fsw = dict(fs, inited=list(fs.get("inited") or []) + ["x", "y"])
+            return N("with", k=[wobj, self.block(d - 1, fsw)])
         if fs.get("ownnames") and r.random() < 0.12:
             # an assignment, in statement position, to the own name of an enclosing named function expression
             x = r.choice(fs["ownnames"])
@@ -380,7 +391,8 @@ def guard(stmt):
 
 def random_program(pid, rnd, maxd=3):
     g = Gen(rnd, maxd)
-    fs = dict(declared=set(), params=[], loopvars=set(), incatch=False, top=True, inited=[], fnames=[])
+    pstrict = 1 if rnd.random() < 0.4 else 0
+    fs = dict(declared=set(), params=[], loopvars=set(), incatch=False, top=True, inited=[], fnames=[], strict=bool(pstrict))
     body = g.stmts(maxd, fs, top=True, maxn=6)
     if rnd.random() < 0.7:
         body = [guard(s) if rnd.random() < 0.8 else s for s in body]
@@ -389,7 +401,7 @@ def random_program(pid, rnd, maxd=3):
         if rnd.random() < 0.6:
             body.append(N("try", x="e", cp=N("none"), k=[N("block", k=[N("expr", k=[N("log", k=[N("call", k=[N("ref", x=nm)])])])]),
                                          N("block", k=[N("expr", k=[N("log", k=[N("ref", x="e")])])])]))
-    return dict(id=pid, strict=1 if rnd.random() < 0.4 else 0, body=body)
+    return dict(id=pid, strict=pstrict, body=body)
 
 
 # ---------------------------------------------------------------------------------------------------------------
@@ -401,6 +413,8 @@ def has_top_return(stmts):
         if t == "return":
             return True
         if t in ("block",) and has_top_return(s["k"]):
+            return True
+        if t == "with" and has_top_return([s["k"][1]]):
             return True
         if t == "if" and any(has_top_return([b]) for b in s["k"][1:]):
             return True
@@ -524,6 +538,8 @@ def ps(stmts, o, ind):
             out.append(p + ("K(%s);" if o.get("exprpos") else "%s;") % pe(s["k"][0], o))
         elif t in ("var", "let", "const"):
             out.append(p + "%s %s%s;" % (t, s["x"], (" = " + pe(s["k"][0], o)) if s["k"] else ""))
+        elif t == "with":
+            out.append(p + "with (%s) {\n%s\n%s}" % (pe(s["k"][0], o), ps(s["k"][1]["k"], o, ind + 1), p))
         elif t in ("varp", "letp", "constp"):
             rhs = "[%s]" % ", ".join(pe(x, o) for x in s["k"][0]["k"]) if s["pat"]["t"] == "apat" else pe(s["k"][0], o)
             out.append(p + "%s %s = %s;" % (t[:-1], ppat(s["pat"], o), rhs))
@@ -594,7 +610,7 @@ def top_eval_vars(stmts):
         elif t in ("if", "try", "switch"):
             if top_eval_vars([c for c in s["k"] if c["t"] in ("block", "case")]):
                 return True
-        elif t in ("for", "forof"):
+        elif t in ("for", "forof", "with"):
             if top_eval_vars([s["k"][-1]]):
                 return True
     return False
@@ -611,7 +627,7 @@ def has_var(stmts):
             return True
         if t in ("if", "try", "switch") and has_var([c for c in s["k"] if c["t"] in ("block", "case")]):
             return True
-        if t in ("for", "forof") and has_var([s["k"][-1]]):
+        if t in ("for", "forof", "with") and has_var([s["k"][-1]]):
             return True
     return False
 
